@@ -297,6 +297,15 @@ func TestC04_Chain(t *testing.T) {
 				wf, wu := clampWindow(genWindow(t, 5))
 				b = newDeactivate(a, suffix, rec, wf, wu)
 				b.Reveal = rec.Reveal(recAlg)
+				if rapid.Bool().Draw(t, "deactivateExtraMembers") {
+					// members of other operation types in the signed data of a deactivate mean nothing: there is no next commitment
+					for _, name := range []string{"recoveryCommitment", "updateCommitment", "deltaHash"} {
+						if rapid.Bool().Draw(t, "extra-"+name) {
+							b.Signed[name] = key("extraCommitment").Commitment(a)
+						}
+					}
+					b.sign()
+				}
 				b.assemble()
 			}
 			raw := b.bytes()
